@@ -180,13 +180,15 @@ class PathResult:
     run: Run = None
 
 
-def explore(thunk, axioms=(), max_paths=4000):
+def explore(thunk, axioms=(), max_paths=4000, nested=False):
     """thunk(run) executes the code under analysis once along run's decisions and returns its value"""
     work = [[]]
     results: list[PathResult] = []
     while work:
         prefix = work.pop()
-        reset_fresh()
+        if not nested:           # a nested exploration must not restart the fresh-name counter of the enclosing path
+            reset_fresh()
+        saved_oracle = values.ORACLE
         run = Run(prefix, axioms)
         values.ORACLE = run.known
         try:
@@ -208,6 +210,7 @@ def explore(thunk, axioms=(), max_paths=4000):
                 traceback.print_exc()
             tb = traceback.extract_tb(e.__traceback__)[-1]
             outcome = ('unsupported', f'engine error {type(e).__name__}: {e} at {tb.filename.rsplit("/", 1)[-1]}:{tb.lineno}')
+        values.ORACLE = saved_oracle if nested else values.ORACLE
         work.extend(run.alternatives)
         results.append(PathResult(tuple(run.decisions), list(run.pc), list(run.axioms), outcome,
                                   run.obligations, run.events, run.ghost, run))
